@@ -167,6 +167,11 @@ SPEC_DEFAULTS = {
 GENERIC_DEFAULTS = [("arch", "noarch"), ("arch", "any"), ("os", "linux"), ("type", "jar"), ("platform", "ruby"), ("distro", "default"),
                     ("repository_url", "https://example.org"), ("epoch", "0"), ("ext", "tar.gz")]
 DEFAULT_VERSIONS = ["latest", "0", "0.0.0", "*", "HEAD", "main", "master", "v0", "unknown", "none", "null"]
+# versions as the ecosystems write them (each has a "normal form" of its own that a PURL must NOT apply)
+ECO_VERSIONS = ["1.0.0.0", "6.0.1304.0", "13.0.3.00", "1.2.3.000-pre", "1.01.1", "01.02.03", "1.0.0.0.0", "1.0", "1", "v1.2.3", "V1.2.3", "1.2.3-beta.1", "1.2.3-BETA",
+                "1.0.0+incompatible", "1.0.0+build.5", "v0.0.0-20210101000000-abcdef123456", "1.0-SNAPSHOT", "2.0.0.RELEASE", "1.0.0rc1", "1.0.0RC1",
+                "1.0.post1", "1.0.dev0", "1!2.0", "1.0.0-alpha+001", "^1.2", "~>2.0", ">=1.0,<2", "1.x", "1.0.*", "1.0.0-", "1.0.0.", ".1", "1..0",
+                "1.0.0 ", "=1.0.0", "1.0.0-0", "00", "0.0", "1_0", "2021.01.02", "20210102T030405Z", "1.0.0~rc1", "1:1.0-1", "abc123def", "0x10"]
 
 
 def rand_tuple(r, plain=False, ty=None):
@@ -193,8 +198,8 @@ def rand_tuple(r, plain=False, ty=None):
         if k not in seen:
             seen.add(k)
             quals.append((flipcase(r, k) if r.chance(1, 3) else k, v))
-    if r.chance(1, 24):
-        version = r.pick(DEFAULT_VERSIONS)
+    if r.chance(1, 10):
+        version = r.pick(DEFAULT_VERSIONS + ECO_VERSIONS)
     sub = []
     for _ in range(r.pick([0, 0, 1, 2, 3])):
         s = no_slash(text(r))
